@@ -34,6 +34,11 @@ claimed = {
          "Format 4: all 3^10 (quick) / 4^11 maps over a code window at both ends of the BMP (incl. 0xFFFF and wrapping glyph ids), all [run][gap][run] structures at three offsets, subtables near the 64 KiB limit; format 12: all 4^7 maps over BMP/astral boundary codes; every Encode output is decoded by the library and by refcmap (written from the specification) and compared with the original on the window and its neighbourhood; header fields checked against the spec formulas. Byte-level: assembled format 4 with idRangeOffset+idDelta and the customary final segments, format 6, format 0 under Unicode and Macintosh keys. cmap.Table: all 3^7 key subsets with shared/distinct subtables, sharing, GetBest precedence.",
          "Code points are non-negative; the code window is finite (boundary codes); known finding: format 0 under the Macintosh key.",
          "DESIGN.md 4/C09"),
+ "C14": ("model_checking",
+         "exhaustive enumeration over the library's own language / script tables, all Mac Roman byte pairs, all BMP code points and bounded name-list alphabets, judged by independent name/post parsers and x/text's Macintosh charmap",
+         "Mac Roman: all 65536 two-byte strings in both directions against the published table. name.Info: every supported Macintosh and Windows language (all table entries) x 16 name ids x strings; all subsets of a 6-language set x shared/distinct strings x three size classes; every BMP scalar and the surrogate corner cases through Windows records; an independent parser checks platform/language ids and raw string encodings. Every script x language pair of the OpenType tag tables goes OTF -> BCP 47 -> OTF and through gtab.Info.Encode/gtab.Read with the raw 4-byte tags checked. post: all name lists of length <= 4 over a 6-name alphabet, the standard Macintosh order, all its prefixes, permutations, 259 and 1000 names, read back by the library and by an independent post parser.",
+         "Mac strings are over the Mac Roman repertoire (0xDB = euro as the library documents); glyph names are at most 255 bytes; known finding: name storage above 64 KiB is written corrupt.",
+         "DESIGN.md 4/C14"),
 }
 checks = []
 na = []
